@@ -90,6 +90,16 @@ Definition site_covered (s : gsite) : bool := match site_cover s with Some _ => 
 Definition verdicts_agree (s : gsite) : bool :=
   String.eqb (gs_cover s) (match site_cover s with Some mu => mu | None => "" end).
 
+(* all users of one array of mutexes select the element by the same function of the guarded id *)
+Definition shard_keys_agree (l : list (string * string * string)) : bool :=
+  forallb (fun a => forallb (fun b => negb (String.eqb (snd (fst a)) (snd (fst b))) || String.eqb (snd a) (snd b)) l) l.
+
+(* each versioned single-key mutation of the storage engine is exactly one write transaction
+   (and no separate read transaction): the hypothesis under which it is modelled as one critical
+   section of the mutex "badger.txn" *)
+Definition single_txn (l : list (string * nat * nat)) : bool :=
+  forallb (fun t => Nat.eqb (snd (fst t)) 1 && Nat.eqb (snd t) 0) l.
+
 Definition find_site (name : string) : option gsite :=
   find (fun s => String.eqb (gs_name s) name) lock_table.
 
@@ -165,11 +175,21 @@ Definition rename_loc (v : nat) (l : string) : string :=
   end.
 Definition rename_events (v : nat) (evs : list gev) : list gev :=
   map (fun e => match e with GRead l => GRead (rename_loc v l) | GWrite l => GWrite (rename_loc v l) | _ => e end) evs.
-Definition site_request_v (me : N) (v : nat) (s : gsite) : request val :=
-  to_actions (guarded (gs_name s)) me (rename_events v (gs_events s)) 0 [].
+(* requests that do not put back what they read: a delete stores the empty value, a replacing post
+   stores only its own contribution *)
+Definition clears (name : string) : bool :=
+  String.eqb name "neuronjson.DeleteData".
+Definition override_writes (f : locals val -> val) (r : request val) : request val :=
+  map (fun a => match a with Write l _ => Write l f | _ => a end) r.
+Definition site_request_k (me : N) (v : nat) (replace : bool) (s : gsite) : request val :=
+  let r := to_actions (guarded (gs_name s)) me (rename_events v (gs_events s)) 0 [] in
+  if clears (gs_name s) then override_writes (fun _ => []) r
+  else if replace then override_writes (fun _ => [me]) r
+  else r.
+Definition site_request_v (me : N) (v : nat) (s : gsite) : request val := site_request_k me v false s.
 Definition site_locs_v (v : nat) (s : gsite) : list string := map (rename_loc v) (site_locs s).
 
-Record sreq := mkSreq { sr_site : string; sr_variant : nat; sr_yields : list string }.
+Record sreq := mkSreq { sr_site : string; sr_variant : nat; sr_replace : bool; sr_yields : list string }.
 
 (* scheduler state: machine state, per thread the number of segments it has completed *)
 Definition executed (len_i i : nat) (s : state val) : nat :=
@@ -299,11 +319,14 @@ Fixpoint number_from {A} (n : N) (l : list A) : list (N * A) :=
   match l with [] => [] | x :: r => (n, x) :: number_from (n + 1)%N r end.
 
 (* None: a site or a yield point of the case is not in the generated table *)
-Definition sched_run (rs : list sreq) (w : list nat) : option sched_out :=
+Definition store_of (ini : list (string * list N)) : store val :=
+  fun l => match find (fun e => String.eqb (fst e) l) ini with Some e => snd e | None => [] end.
+
+Definition sched_run (ini : list (string * list N)) (rs : list sreq) (w : list nat) : option sched_out :=
   match opt_all (map (fun r => find_site (sr_site r)) rs) with
   | None => None
   | Some sites =>
-    let reqs := map (fun p => site_request_v (fst p) (sr_variant (fst (snd p))) (snd (snd p)))
+    let reqs := map (fun p => site_request_k (fst p) (sr_variant (fst (snd p))) (sr_replace (fst (snd p))) (snd (snd p)))
                     (number_from 1%N (combine rs sites)) in
     match opt_all (map (fun p => opt_all (map (fun y => yield_pos y (gs_events (snd p)) 0) (sr_yields (fst p))))
                        (combine rs sites)) with
@@ -312,7 +335,7 @@ Definition sched_run (rs : list sreq) (w : list nat) : option sched_out :=
       let lens := map (@List.length _) reqs in
       let guards := map (fun x => guarded (gs_name x)) sites in
       let fuel := S (fold_left Nat.add lens 0%nat) in
-      let x0 := mkSst (init reqs empty_store) (map (fun _ => 0%nat) reqs) [] in
+      let x0 := mkSst (init reqs (store_of ini)) (map (fun _ => 0%nat) reqs) [] in
       let '(x1, blocked) := follow lens marks guards fuel w 0 x0 in
       let '(x2, hang) := drain lens marks guards fuel (S (fuel * 2)) x1 in
       let s2 := ss x2 in
@@ -345,6 +368,11 @@ Record c11case := mkCase {
   c_extra : N;                       (* 0, or a site-specific consistency check of the quiescent state that failed *)
   c_rel : list (string * bool * list N);  (* Sched cases: per view, is it primary data, and the requests whose
                                              effect a sequential run shows in it ([] = every view shows every request) *)
+  c_init : list (string * list N);   (* Sched cases: what the locations held before the requests *)
+  c_serial : list (list (string * list N));
+     (* Sched cases whose requests do not commute (post / replacing post / delete of one annotation):
+        the quiescent states of the sequential orders of the acknowledged requests, computed by the
+        driver from the documented meaning of the requests; [] = the requests commute *)
 }.
 
 Definition rel_of (c : c11case) (view : string) : option (bool * list N) :=
@@ -359,7 +387,7 @@ Definition model_ok (c : c11case) : bool :=
   match c_mode c with
   | Stress _ => true
   | Sched rs w blocked =>
-    match sched_run rs w with
+    match sched_run (c_init c) rs w with
     | None => false
     | Some o =>
       let blocked_eq := match blocked, so_blocked o with
@@ -369,7 +397,7 @@ Definition model_ok (c : c11case) : bool :=
                         end in
       (* the scheduler's run is an ordinary schedule of Model.Conc: replaying its action-level
          interleaving with run_schedule is accepted, complete, and ends in the same store *)
-      let replay_ok := match run_schedule (so_trace o) (init (so_reqs o) empty_store) with
+      let replay_ok := match run_schedule (so_trace o) (init (so_reqs o) (store_of (c_init c))) with
                        | Some s => all_done s && same_on (sched_locs rs) (st s) (so_final o)
                        | None => false
                        end in
@@ -433,7 +461,27 @@ Definition is_hang (m : mode) : bool := match m with Hang _ _ => true | _ => fal
    commute: any sequential order gives that state); a "children" view is the set of children on one
    branch of the parent, of which a sequential run creates at most one *)
 Definition is_prefix_children (v : string) : bool := String.prefix "children" v.
+Definition matches_alt (c : c11case) (alt : list (string * list N)) : bool :=
+  forallb (fun lo => match find (fun e => String.eqb (fst e) (fst lo)) alt with
+                     | Some e => set_eqb (snd e) (snd lo)
+                     | None => false
+                     end) (c_obs c).
+Definition kind_serial (c : c11case) : nat :=
+  if existsb (matches_alt c) (c_serial c) then (if N.eqb (c_extra c) 0 then 0%nat else 4%nat)
+  else
+    (* which part is wrong: the primary (first) view matches no sequential order, or only a derived one *)
+    match c_obs c with
+    | first :: _ =>
+      if existsb (fun alt => match find (fun e => String.eqb (fst e) (fst first)) alt with
+                             | Some e => set_eqb (snd e) (snd first)
+                             | None => false
+                             end) (c_serial c)
+      then 2%nat else 1%nat
+    | [] => 4%nat
+    end.
+
 Definition kind_sched (c : c11case) : nat :=
+  match c_serial c with _ :: _ => kind_serial c | [] =>
   let missing (primary : bool) :=
     existsb (fun lo => match rel_of c (fst lo) with
                        | Some (p, rel) => Bool.eqb p primary && negb (subset (restrict (c_acked c) rel) (snd lo))
@@ -449,7 +497,8 @@ Definition kind_sched (c : c11case) : nat :=
   else if missing false then 2%nat
   else if extra then 4%nat
   else if negb (N.eqb (c_extra c) 0) then 4%nat
-  else 0%nat.
+  else 0%nat
+  end.
 
 Definition is_sched (m : mode) : bool := match m with Sched _ _ _ => true | _ => false end.
 
